@@ -162,7 +162,9 @@ func genSessionID() (string, error) {
 func indexIngest(repo Repo, index *types.Index, conf config.Config, locked bool) (bool, error) {
 	mod := false
 	// error if referrer API not enabled and annotation indicates this is already converted, this repo should not writable
-	if !*conf.API.Referrer.Enabled && index.Annotations != nil && index.Annotations[types.AnnotReferrerConvert] == "true" {
+	// a store that never writes to the directory (read-only, or in memory) serves it as it is
+	_, persist := repo.(*dirRepo)
+	if persist && !*conf.Storage.ReadOnly && !*conf.API.Referrer.Enabled && index.Annotations != nil && index.Annotations[types.AnnotReferrerConvert] == "true" {
 		return mod, fmt.Errorf("index.json has referrers converted with the API disabled")
 	}
 	// ensure index has schema and media type
